@@ -33,11 +33,44 @@ macro_rules! atomic_int {
           }
           return Err(v);
         }
-        self.0.compare_exchange(current, new, success, failure)
+        let r = self.0.compare_exchange(current, new, success, failure);
+        if r.is_ok() {
+          ctx::after_write();
+        }
+        r
       }
 
       pub fn into_inner(self) -> $t {
         self.0.into_inner()
+      }
+
+      // writes: the scheduling point shuttle puts *before* the operation, plus (per-run knob)
+      // one after it
+      pub fn store(&self, v: $t, order: Ordering) {
+        self.0.store(v, order);
+        ctx::after_write();
+      }
+      pub fn swap(&self, v: $t, order: Ordering) -> $t {
+        let r = self.0.swap(v, order);
+        ctx::after_write();
+        r
+      }
+      pub fn compare_exchange(&self, current: $t, new: $t, success: Ordering, failure: Ordering) -> Result<$t, $t> {
+        let r = self.0.compare_exchange(current, new, success, failure);
+        if r.is_ok() {
+          ctx::after_write();
+        }
+        r
+      }
+      pub fn fetch_and(&self, v: $t, order: Ordering) -> $t {
+        let r = self.0.fetch_and(v, order);
+        ctx::after_write();
+        r
+      }
+      pub fn fetch_or(&self, v: $t, order: Ordering) -> $t {
+        let r = self.0.fetch_or(v, order);
+        ctx::after_write();
+        r
       }
     }
 
@@ -62,13 +95,36 @@ macro_rules! atomic_int {
   };
 }
 
+macro_rules! atomic_arith {
+  ($name:ident, $t:ty) => {
+    impl $name {
+      pub fn fetch_add(&self, v: $t, order: Ordering) -> $t {
+        let r = self.0.fetch_add(v, order);
+        ctx::after_write();
+        r
+      }
+      pub fn fetch_sub(&self, v: $t, order: Ordering) -> $t {
+        let r = self.0.fetch_sub(v, order);
+        ctx::after_write();
+        r
+      }
+    }
+  };
+}
+
 atomic_int!(AtomicBool, bool);
 atomic_int!(AtomicU8, u8);
+atomic_arith!(AtomicU8, u8);
 atomic_int!(AtomicU32, u32);
+atomic_arith!(AtomicU32, u32);
 atomic_int!(AtomicU64, u64);
+atomic_arith!(AtomicU64, u64);
 atomic_int!(AtomicUsize, usize);
+atomic_arith!(AtomicUsize, usize);
 atomic_int!(AtomicI64, i64);
+atomic_arith!(AtomicI64, i64);
 atomic_int!(AtomicIsize, isize);
+atomic_arith!(AtomicIsize, isize);
 
 #[derive(Debug)]
 #[repr(transparent)]
@@ -93,11 +149,32 @@ impl<T> AtomicPtr<T> {
       }
       return Err(v);
     }
-    self.0.compare_exchange(current, new, success, failure)
+    let r = self.0.compare_exchange(current, new, success, failure);
+    if r.is_ok() {
+      ctx::after_write();
+    }
+    r
   }
 
   pub fn into_inner(self) -> *mut T {
     self.0.into_inner()
+  }
+
+  pub fn store(&self, v: *mut T, order: Ordering) {
+    self.0.store(v, order);
+    ctx::after_write();
+  }
+  pub fn swap(&self, v: *mut T, order: Ordering) -> *mut T {
+    let r = self.0.swap(v, order);
+    ctx::after_write();
+    r
+  }
+  pub fn compare_exchange(&self, current: *mut T, new: *mut T, success: Ordering, failure: Ordering) -> Result<*mut T, *mut T> {
+    let r = self.0.compare_exchange(current, new, success, failure);
+    if r.is_ok() {
+      ctx::after_write();
+    }
+    r
   }
 }
 
